@@ -116,6 +116,8 @@ components(comp),
 isinit(false),
 isinit_d(true)
 {
+  if(dim==1)
+    throw std::runtime_error("SU_vector::SU_vector(unsigned int, double*): Invalid size: dimension 1 is not supported");
   if(dim>SQUIDS_MAX_HILBERT_DIM)
     throw std::runtime_error("SU_vector::SU_vector(unsigned int, double*): Invalid size: only up to SU(" SQUIDS_MAX_HILBERT_DIM_STR ") is supported");
 };
